@@ -13,7 +13,8 @@
                  'the typed byte is not NUL and the line holds no NUL (the history stores C strings; NUL is not a key of the statement; proved preserved at the ghost index)',
                  'cap * history_size <= UINT_MAX (readline_history_init and readline_history_pointer compute it in unsigned int), cap <= INT_MAX',
                  'stream-level conclusion by simulation induction over the byte stream on top of this one-step lemma (not machine-checked)'],
- 'timeout': 600, 'object_bits': 10,
+ 'params': {'CASE': [0,1,2,3,4,5,6,7,8,9,10]},
+ 'timeout': 300, 'object_bits': 10,
  'witness': {'unwind': 10},
 } @*/
 #include "vc.h"
@@ -74,8 +75,15 @@ void harness(void)
     o.q_len = q >= 0 ? Lq : 0; o.q_at_k = q >= 0 ? slot_q[k] : 0;
     char old_line_k = buf[k];
     char old_q_k = o.q_at_k;
-    /* ---- known findings (genuine defects, findings.json) */
+    /* ---- case split over (phase, key class): one run per class, the classes cover every (state, c) */
     int ordinary = state == 0 && c != ED_KEY_CR && c != ED_KEY_LF && c != ED_KEY_BS && c != ED_KEY_ESC;
+    int cls[11] = {state == 0 && spec_ed_is_eol(c), state == 0 && c == ED_KEY_BS, state == 0 && c == ED_KEY_ESC, ordinary, state == 1,
+                   state == 2 && c == 'A', state == 2 && c == 'B', state == 2 && (c == 'C' || c == 'D'), state == 2 && c == '3',
+                   state == 2 && c != 'A' && c != 'B' && c != 'C' && c != 'D' && c != '3', state == 3};
+    __CPROVER_assert(cls[0] || cls[1] || cls[2] || cls[3] || cls[4] || cls[5] || cls[6] || cls[7] || cls[8] || cls[9] || cls[10],
+                     "the case split is complete: every (state, byte) falls in one of the classes");
+    __CPROVER_assume(cls[CASE]);
+    /* ---- known findings (genuine defects, findings.json) */
     int kf_echo = ordinary && len >= cap - 1;
     int kf_crlf = state == 0 && spec_ed_swallowed_eol(&r, c);
     __CPROVER_assume(KF_C15_echo_refused == 0 ? 1 : KF_C15_echo_refused == 1 ? !kf_echo : kf_echo);
